@@ -605,3 +605,23 @@ _CROSS8 = {
 }
 for _p, _ms in list(_CROSS8.items()) + list(_CROSS.items()) + list(_CROSS2.items()) + list(_CROSS3.items()) + list(_CROSS4.items()) + list(_CROSS5.items()) + list(_CROSS6.items()) + list(_CROSS7.items()):
     MUTANTS.setdefault(_p, []).extend(_ms)
+
+# ---- round 8 (the mechanisms of the s8 seeds, as one-line breaks)
+_R8 = {
+    "C08": [mut("rates-code-as-written", "rates parser looks the currency code up as written (no case folding)",
+                [(MPARSER, "let code_raw = rate.currency_code.trim().to_uppercase();", "let code_raw = rate.currency_code.trim().to_string();")], ["R9:"])],
+    "C19": [mut("guard-arm-shadows-literal", "a `starts_with(\"Forced\")` guard arm above the non-vesting literals",
+                [(AWARDS, "        Some(\"Wire Transfer\")\n", "        Some(f) if f.starts_with(\"Forced\") => AwardAction::Vesting,\n        Some(\"Wire Transfer\")\n")], ["R4:"])],
+    "C18": [mut("symbol-uppercased-one-side", "common row fields upper-case the symbol, withholding rows keep it as written",
+                [(TRANS, "let symbol = get_required_string(value, KEY_SYMBOL, KEY_SYMBOL)?.to_string();", "let symbol = get_required_string(value, KEY_SYMBOL, KEY_SYMBOL)?.to_uppercase();")], ["R2:symbol-normalisation"])],
+    "C14": [mut("writer-rounded-zero-test", "FEES clause omitted when the fee rounds to zero at two decimals",
+                [(DSL, "if !fees.amount.is_zero() {", "if !fees.amount.round_dp(2).is_zero() {")], ["R1:"])],
+    "C15": [mut("refusal-into-absence", "an out-of-range disposal date is skipped instead of failing the all-years report",
+                [(CALC, "        let tax_period = TaxPeriod::from_date(m.disposal_date)?;\n", "        let Some(tax_period) = TaxPeriod::from_date(m.disposal_date).ok() else {\n            continue;\n        };\n")], ["R7:"])],
+    "C04": [mut("dedup-after-sort", "identical adjacent lines dropped after the canonical sort",
+                [(M, "        transactions.sort_by(|a, b| a.date.cmp(&b.date));\n", "        transactions.sort_by(|a, b| a.date.cmp(&b.date));\n        transactions.dedup();\n")], ["R9:"])],
+    "C02": [mut("dedup-after-sort", "identical adjacent lines dropped after the canonical sort",
+                [(M, "        transactions.sort_by(|a, b| a.date.cmp(&b.date));\n", "        transactions.sort_by(|a, b| a.date.cmp(&b.date));\n        transactions.dedup();\n")], ["R10:"])],
+}
+for _p, _ms in _R8.items():
+    MUTANTS.setdefault(_p, []).extend(_ms)
